@@ -9,5 +9,6 @@ python3 tools/translate_all.py || echo "setup: translators reported a problem (c
 python3 tools/mkcoqproject.py
 ( cd coq && coq_makefile -f _CoqProject -o Makefile > /dev/null && timeout 3000 make -j16 2>&1 | tail -5 )
 cp -n /repo/Cargo.lock harness/Cargo.lock 2>/dev/null
+python3 tools/mkworkspace.py
 ( cd harness && timeout 5000 cargo build --release --offline --workspace 2>&1 | tail -3 )
 exit 0
